@@ -189,6 +189,7 @@ class Engine:
                 self.return_states += 1
             for (nb, nst) in self.step(b, st):
                 nst = self.prune(nb, nst)
+                nst = self.widen_consts(nb, nst)
                 k = (nb, nst)
                 if k not in seen:
                     seen.add(k)
@@ -200,6 +201,24 @@ class Engine:
             if fin:
                 fin(self)
         return self
+
+    def widen_consts(self, b, st):
+        """A local that arrives at one block with ever new integer constants (an accumulator stepped by a closure,
+        a counter threaded through a fold) is abstracted to an unknown count: keeps the state space finite."""
+        seen = self.__dict__.setdefault("_const_seen", {})
+        out = None
+        for l, e in st.val:
+            if e[0] == "const" and e[1] is not None and e[1].lstrip("-").isdigit():
+                vs = seen.setdefault((b, l), set())
+                if len(vs) <= 3:
+                    vs.add(e[1])
+                if len(vs) > 3:
+                    if out is None:
+                        out = dict(st.val)
+                    out[l] = ("stepped", ("const", min(vs, key=int), None))
+        if out is None:
+            return st
+        return st.replace(val=fz(out))
 
     def prune(self, b, st):
         live = self.live[b]
@@ -635,6 +654,12 @@ class Engine:
                 g = counter_read(x)
                 if g is not None:
                     site, box, field = g
+                    # the outcome of a test on one particular read is a fact about that value: a snapshot kept in a
+                    # local (`let unique = strong_count(this) == 1; ...; if unique`) cannot flip later, whatever
+                    # happened to the counter in between (the flag dies when the read's site is executed again)
+                    if ("cond", x, op, y[1], not truth) in st.flags:
+                        return None
+                    st = st.replace(flags=st.flags | {("cond", x, op, y[1], truth)})
                     if (site, box, field) in st.fresh:
                         if field == "strong":
                             allowed = classes_for(op, y[1], truth)
